@@ -197,4 +197,11 @@ def _(em, obj, ot, args, e): return f"(++{em.ex(obj[0])})"
 @lib(('ptr', 'operator*'))
 def _(em, obj, ot, args, e): return f"(*{em.ex(obj[0])})"
 @lib(('prim', 'join'))
-def _(em, obj, ot, args, e): return "((void)0)"
+def _(em, obj, ot, args, e): return f"Y_THREAD_JOIN({loc_of(em, obj)})"
+@lib(('prim', 'operator='))
+def _(em, obj, ot, args, e):
+    # std::thread var = std::thread(fn)
+    s = em.strip(args[0])
+    while s.get('kind') in ('CXXFunctionalCastExpr', 'CXXTemporaryObjectExpr', 'CXXConstructExpr', 'MaterializeTemporaryExpr', 'ImplicitCastExpr', 'CXXBindTemporaryExpr') and kids(s): s = kids(s)[0]
+    if s.get('kind') != 'DeclRefExpr' or s['referencedDecl']['kind'] not in ('FunctionDecl', 'CXXMethodDecl'): raise Abort('std::thread assignment form')
+    return f"Y_THREAD_START_{em.fname(s['referencedDecl']['id'])}({loc_of(em, obj)})"
